@@ -545,6 +545,8 @@ static var Slice_Iter_Init(var self) {
   struct Slice* s = self;
   struct Range* r = s->range;
   
+  if (Range_Len(r) is 0) { return Terminal; }
+  
   if (r->step > 0) {
     var curr = iter_init(s->iter);
     for(int64_t i = 0; i < r->start; i++) {
